@@ -328,11 +328,16 @@ func wsReaderMain(a []string) {
 
 // ------------------------------------------------------------------------------------ ws-broker
 
-// recHook records, per remote address, a digest of every packet the broker read.
+// recHook records, per client object, a digest of every packet the broker read. A run claims the client objects of its
+// connection by remote address WHILE the connection is still open (the local port is then certainly its own: ephemeral
+// ports are reused quickly when 100 000 cases run in parallel, and a record keyed by address alone was handed to the
+// wrong run in 82 of 100 363 cases of the thorough tier) and collects their records after the broker is done with them.
 type recHook struct {
 	mqtt.HookBase
-	mu   sync.Mutex
-	seen map[string][]string
+	mu      sync.Mutex
+	seen    map[string][]string // kept for the reader harness (keyed by remote address)
+	byCl    map[*mqtt.Client][]string
+	claimed map[*mqtt.Client]bool
 }
 
 func (h *recHook) ID() string           { return "verif-rec" }
@@ -340,9 +345,39 @@ func (h *recHook) Provides(b byte) bool { return b == mqtt.OnPacketRead }
 func (h *recHook) OnPacketRead(cl *mqtt.Client, pk packets.Packet) (packets.Packet, error) {
 	d := pkDigest(pk)
 	h.mu.Lock()
-	h.seen[cl.Net.Remote] = append(h.seen[cl.Net.Remote], d)
+	if h.byCl == nil {
+		h.byCl, h.claimed = map[*mqtt.Client][]string{}, map[*mqtt.Client]bool{}
+	}
+	h.byCl[cl] = append(h.byCl[cl], d)
 	h.mu.Unlock()
 	return pk, nil
+}
+
+// claim returns the not yet claimed client objects whose remote address is remote
+func (h *recHook) claim(remote string) []*mqtt.Client {
+	h.mu.Lock()
+	defer h.mu.Unlock()
+	var out []*mqtt.Client
+	for cl := range h.byCl {
+		if !h.claimed[cl] && cl.Net.Remote == remote {
+			h.claimed[cl] = true
+			out = append(out, cl)
+		}
+	}
+	return out
+}
+
+// collect returns (and forgets) the records of the claimed client objects
+func (h *recHook) collect(cls []*mqtt.Client) []string {
+	h.mu.Lock()
+	defer h.mu.Unlock()
+	s := []string{}
+	for _, cl := range cls {
+		s = append(s, h.byCl[cl]...)
+		delete(h.byCl, cl)
+		delete(h.claimed, cl)
+	}
+	return s
 }
 func (h *recHook) take(remote string) []string {
 	h.mu.Lock()
@@ -528,12 +563,16 @@ func runWS(e *brokerEnv, phases []wsPhase, frames [][]wsFrame, expectClose bool)
 		default:
 		}
 	}
+	mine := e.hook.claim(local)
 	c.Close()
 	<-gone
 	time.Sleep(2 * time.Millisecond)
+	if len(mine) == 0 { // the broker had not read anything when the connection was closed: whatever it reads now is still ours
+		mine = e.hook.claim(local)
+	}
 	mu.Lock()
 	defer mu.Unlock()
-	return reply, binaryOnly, closed, complete, e.hook.take(local), ""
+	return reply, binaryOnly, closed, complete, e.hook.collect(mine), ""
 }
 
 // waitForgotten blocks until the broker no longer knows client id cid (clean sessions are deleted by
@@ -604,12 +643,16 @@ func runTCP(e *brokerEnv, phases []wsPhase) (reply []byte, complete bool, pkts [
 			break
 		}
 	}
+	mine := e.hook.claim(local)
 	c.Close()
 	<-gone
 	time.Sleep(2 * time.Millisecond)
+	if len(mine) == 0 {
+		mine = e.hook.claim(local)
+	}
 	mu.Lock()
 	defer mu.Unlock()
-	return reply, complete, e.hook.take(local), sent, ""
+	return reply, complete, e.hook.collect(mine), sent, ""
 }
 
 // a random session: phase A = packets answered directly (in order) closed by PINGREQ/PINGRESP,
